@@ -134,10 +134,25 @@ def interp_trace(code, prog):
         return "ERROR %s: %s" % (type(ex).__name__, ex)
 
 
+def confusable_ids(code):
+    """the same method with statement ids that collide under 'natural' / case-folding comparisons
+    (s_1 / s_01, s_2 / s_02, ...): ids are arbitrary distinct strings as far as the property is concerned"""
+    phases = {}
+    for k, (name, ph) in enumerate(code.phases.items()):
+        old = [s.id for s in natsorted(ph.statements, key=lambda s: s.id)]
+        ren = {o: "p%ds_%s%d" % (k, "0" if i % 2 else "", i // 2 + 1) for i, o in enumerate(old)}
+        stmts = [s.copy(id=ren[s.id], depends_on=frozenset(ren.get(d, d) for d in s.depends_on))
+                 for s in ph.statements]
+        phases[name] = lang.ExecutionPhase(name=name, next_phase=ph.next_phase, statements=stmts)
+    return lang.DAGCode(phases=phases, initial_phase=code.initial_phase)
+
+
 def produce(inp, hows):
     """{how: {"py": text, "f": text|None, "run": trace-json}}"""
     out = {}
     code = B.build_code(inp["program"])
+    if inp.get("ids") == "confusable":
+        code = confusable_ids(code)
     for how in hows:
         c = present(code, how)
         r = {"py": python_text(c), "f": None, "run": interp_trace(c, inp["program"])}
@@ -570,6 +585,9 @@ def bounded(payload):
     for i in range(max(n_ode, n_gen)):
         inputs += odes[i:i + 1] + gens[i:i + 1]
     for i, inp in enumerate(inputs):
+        if i % 3 == 2:
+            inp["ids"] = "confusable"        # statement ids that tie under natural-sort / numeric-suffix keys
+    for i, inp in enumerate(inputs):
         inp["other"] = strip_other(inputs[i - 1]) if i else strip_other(inputs[-1])
 
     failures, known_hits = [], []
@@ -652,7 +670,8 @@ def bounded(payload):
                     "functions incl. ones that overwrite their arguments, norms, arrays with loops, "
                     "step-size logic with if_/else_, fail_step, switch_phase, raise_; 1-3 phases) given to "
                     "the Python AND the Fortran generator and the interpreter; (ii) general builder programs "
-                    "of the C01 generator given to the Python generator and the interpreter.  Each is "
+                    "of the C01 generator given to the Python generator and the interpreter; every third description with its "
+                    "statement ids renamed to strings that tie under natural-sort keys (s_1 / s_01).  Each is "
                     "generated as built, with list-valued and shuffled `statements` / rebuilt `depends_on` "
                     "(1 shuffle in the quick tier, list + 3 shuffles otherwise), with the phases dict in "
                     "reverse order, and a second time after separate generator objects produced another "
